@@ -509,8 +509,13 @@ def fast_pareto_mask(df_values, goals, distinct=True):
         pareto_idx = np.where(mask)[0]
         n_pareto = len(pareto_idx)
         if n_pareto > 1:
-            pareto_rows = data[pareto_idx]
-            dup_mask = pd.DataFrame(pareto_rows).duplicated(keep="first").values
+            # Compare in the precision the dominance test used: rows whose objectives
+            # differ only below it (float32 vs float64 copies of one value) dominate
+            # neither way and would otherwise both survive as "distinct".
+            pareto_rows = pd.DataFrame(eff_data[pareto_idx])
+            for c in diff_cols:
+                pareto_rows[f"diff{c}"] = data[pareto_idx, c]
+            dup_mask = pareto_rows.duplicated(keep="first").values
             if dup_mask.any():
                 new_mask = np.zeros(n, dtype=bool)
                 new_mask[pareto_idx[~dup_mask]] = True
